@@ -1,6 +1,8 @@
 import EgVerif.Model.Payload
 import EgVerif.Spec.Payload
 import EgVerif.Gen.FactsC07
+import EgVerif.Proofs.PayloadIR
+import EgVerif.Model.ProxyE2E
 /-!
 # C07 — body limits: oversized requests get 413 unforwarded, big responses are withheld
 
@@ -241,7 +243,9 @@ theorem poolResp_meets_spec (dflt poolL proxyL : Int) (st : Nat) (s : Src) :
 
 /-! ### Facts regenerated from the source on every run -/
 
-/-- `DefaultMaxPayloadSize` is 4 MiB; `serveHTTP` calls `FetchPayload` before the handler and
+/-- (The two printed limit-selection statements that stood here are replaced by the stronger
+`serve_ / buildResp_regenerated_from_source`, which re-translate them and survive renamings.)
+`DefaultMaxPayloadSize` is 4 MiB; `serveHTTP` calls `FetchPayload` before the handler and
 leaves through `return` with 413 / 400 in the two error branches; `buildResponse` returns the
 `FetchPayload` error and `doHandle` maps it to 500. -/
 theorem facts_hold :
@@ -251,10 +255,188 @@ theorem facts_hold :
     Gen.FactsC07.muxOtherErrStatus = "http.StatusBadRequest" ∧
     Gen.FactsC07.muxErrBranchesReturn = true ∧
     Gen.FactsC07.muxFetchBeforeHandle = true ∧
-    Gen.FactsC07.muxLimitSelection = "maxBodySize := route.path.clientMaxBodySize; if maxBodySize == 0 { maxBodySize = mi.spec.ClientMaxBodySize }" ∧
-    Gen.FactsC07.poolLimitSelection = "maxBodySize := sp.spec.ServerMaxBodySize; if maxBodySize == 0 { maxBodySize = sp.proxy.spec.ServerMaxBodySize }" ∧
     Gen.FactsC07.poolFetchErrReturned = true ∧
     Gen.FactsC07.poolBuildErrStatus = "http.StatusInternalServerError" := by decide
+
+/-! ### Regenerated tie by translation (notes/IR.md): the code itself, re-translated on every run
+
+`Gen.FactsC07IR.*` are produced by `harness/factextract/facts_c07_ir.go` (go/ast → Lean) from the
+*current* bodies of the four anchored mechanisms; the proofs are in `Proofs/PayloadIR.lean`. `error`
+values are the enumeration `Payload.Err`, byte slices are known by length, the body reader is
+stateful (`Payload.Rd`; contract of `io.ReadFull` / `io.ReadAll∘io.LimitReader` / `io.Copy` =
+`readFull` / `readAllLimited` / `copyDiscard`, trusted and exercised by the `fetch` harness). -/
+
+/-- `Request.FetchPayload` (request.go) = `fetch`, for every limit and every body source. -/
+theorem fetchReq_regenerated_from_source (dflt limit : Int) (s : Src) :
+    Gen.FactsC07IR.extractionFailed = false ∧
+    toOutcome (Gen.FactsC07IR.fetchReqIR dflt limit s) = some (fetch dflt limit s) :=
+  ⟨by decide, Payload.fetchReq_regenerated_from_source dflt limit s⟩
+
+/-- `Response.FetchPayload` (response.go) = `fetchResp`; `m` = method of the answered request. -/
+theorem fetchResp_regenerated_from_source (dflt limit : Int) (m : Option String) (s : Src) :
+    Gen.FactsC07IR.extractionFailed = false ∧
+    toOutcome (Gen.FactsC07IR.fetchRespIR dflt limit m s) = some (fetchResp dflt limit (m == some "HEAD") s) :=
+  ⟨by decide, Payload.fetchResp_regenerated_from_source dflt limit m s⟩
+
+/-- mux.go: limit selection, 413 / 400 mapping, `return` before the handler = `serve`. -/
+theorem serve_regenerated_from_source (dflt pathL serverL : Int) (gf : Option Unit) (s : Src) :
+    Gen.FactsC07IR.extractionFailed = false ∧
+    (Gen.FactsC07IR.serveIR dflt pathL serverL gf s).1 = (serve dflt pathL serverL s).status ∧
+    (Gen.FactsC07IR.serveIR dflt pathL serverL gf s).2.1 = (serve dflt pathL serverL s).handled ∧
+    ((serve dflt pathL serverL s).handled = true →
+      toOutcome ((Gen.FactsC07IR.serveIR dflt pathL serverL gf s).2.2, .nil) = some (serve dflt pathL serverL s).payload) :=
+  ⟨by decide, Payload.serve_regenerated_from_source dflt pathL serverL gf s⟩
+
+/-- pool.go `buildResponse`: limit selection, error returned ⇔ not delivered (`spCtx.resp` stays nil ⇒ 500). -/
+theorem buildResp_regenerated_from_source (dflt poolL proxyL : Int) (m : Option String) (err0 : Err)
+    (st : Nat) (s : Src) :
+    Gen.FactsC07IR.extractionFailed = false ∧
+    (let r := Gen.FactsC07IR.buildRespIR dflt poolL proxyL m err0 s
+     let w := poolResp dflt poolL proxyL (m == some "HEAD") st s
+     (r.1 = .nil ↔ w.delivered = true) ∧ r.2.1 = r.2.2 ∧
+     (w.delivered = false → r.2.1 = none ∧ w.status = 500) ∧
+     (w.delivered = true → w.status = st ∧ ∃ p, r.2.1 = some p ∧ toOutcome (p, .nil) = some w.payload)) :=
+  ⟨by decide, Payload.buildResp_regenerated_from_source dflt poolL proxyL m err0 st s⟩
+
+/-- non-vacuity: the translated code on concrete sources (11 chunked bytes against limit 10; a short body). -/
+example : Gen.FactsC07IR.fetchReqIR 4194304 10 ⟨-1, 11⟩ = (.bytes 10, .tooLarge) ∧
+    Gen.FactsC07IR.fetchReqIR 4194304 10 ⟨8, 5⟩ = (.bytes 5, .unexpectedEOF) ∧
+    Gen.FactsC07IR.fetchReqIR 4194304 10 ⟨8, 0⟩ = (.bytes 0, .unexpectedEOF) ∧
+    Gen.FactsC07IR.fetchRespIR 4194304 0 (some "HEAD") ⟨100, 0⟩ = (.bytes 0, .nil) ∧
+    Gen.FactsC07IR.serveIR 4194304 10 1000 none ⟨-1, 11⟩ = (413, false, .unset) ∧
+    Gen.FactsC07IR.serveIR 4194304 0 (-1) (some ()) ⟨-1, 11⟩ = (0, true, .stream) := by decide
+
+/-! ### Limit selection at all four levels, `-1` at each level -/
+
+/-- The complete table of the two-level selection (path/server for requests, pool/proxy for responses):
+a negative inner level streams whatever the outer level says; a positive inner level is the limit even when
+the outer level says `-1`; an unset inner level defers to the outer one — which may be `-1` (stream) —
+and both unset give the default. -/
+theorem limit_levels (dflt inner outer : Int) :
+    (inner < 0 → Spec.limitInForce dflt inner outer = inner) ∧
+    (inner > 0 → Spec.limitInForce dflt inner outer = inner) ∧
+    (inner = 0 → outer ≠ 0 → Spec.limitInForce dflt inner outer = outer) ∧
+    (inner = 0 → outer = 0 → Spec.limitInForce dflt inner outer = dflt) := by
+  refine ⟨?_, ?_, ?_, ?_⟩ <;> intros <;> simp_all [Spec.limitInForce] <;> omega
+
+/-- `-1` at each of the four levels, on the `serve` / `poolResp` models: (1) path `-1` streams over any
+server value; (2) path unset, server `-1` streams; (3) a positive path limit is enforced although the server
+says `-1`; (4)–(6) the same for pool / proxy. -/
+theorem minus_one_at_each_level (dflt : Int) (outer : Int) (n : Nat) (st : Nat) (s : Src) (hn : 0 < n) :
+    serve dflt (-1) outer s = ⟨0, true, .stream⟩ ∧
+    serve dflt 0 (-1) s = ⟨0, true, .stream⟩ ∧
+    serve dflt n (-1) ⟨-1, n + 1⟩ = ⟨413, false, .tooLarge⟩ ∧
+    poolResp dflt (-1) outer false st s = ⟨st, true, .stream⟩ ∧
+    poolResp dflt 0 (-1) false st s = ⟨st, true, .stream⟩ ∧
+    poolResp dflt n (-1) false st ⟨-1, n + 1⟩ = ⟨500, false, .tooLarge⟩ := by
+  have h1 : Spec.limitInForce dflt (-1) outer < 0 := by simp [Spec.limitInForce]
+  have h2 : Spec.limitInForce dflt 0 (-1) < 0 := by simp [Spec.limitInForce]
+  have h3 : Spec.limitInForce dflt (n : Int) (-1) = n := by
+    have : (n : Int) ≠ 0 := by omega
+    exact inner_level_wins dflt n (-1) this
+  refine ⟨stream_always_handled _ _ _ _ h1, stream_always_handled _ _ _ _ h2, ?_, ?_, ?_, ?_⟩
+  · apply too_large_never_handled
+    · rw [h3]; omega
+    · simp [Spec.isShort]
+    · rw [h3]; simp [Spec.size]; omega
+  · have : fetchResp dflt (effLimit (-1) outer) false s = .stream := by
+      unfold fetchResp; rw [effective_limit]; simp [h1]
+    simp [poolResp, this]
+  · have : fetchResp dflt (effLimit 0 (-1)) false s = .stream := by
+      unfold fetchResp; rw [effective_limit]; simp [h2]
+    simp [poolResp, this]
+  · apply resp_too_large_is_5xx_not_delivered
+    · rw [h3]; omega
+    · simp [Spec.isShort]
+    · rw [h3]; simp [Spec.size]; omega
+
+/-- The request-side limits never touch the response and vice versa: `prepare` (mux + RequestAdaptor +
+prepareRequest) is independent of pool / proxy limits, `proxyResp` (transport + buildResponse) of path /
+server limits. -/
+theorem levels_do_not_cross {β : Type} (ops : Proxy.BodyOps β) (canon : String → String) (cfg : Proxy.Cfg)
+    (q : Proxy.ClientReq β) (x y : Int) (method : String) (outHdr : Proxy.Hdr) (reply : Proxy.BackendReply β) :
+    Proxy.prepare ops canon { cfg with poolMax := x, proxyMax := y } q = Proxy.prepare ops canon cfg q ∧
+    Proxy.proxyResp ops { cfg with pathMax := x, serverMax := y } method outHdr reply =
+      Proxy.proxyResp ops cfg method outHdr reply := ⟨rfl, rfl⟩
+
+/-! ### Lying Content-Length -/
+
+/-- A body *longer* than it declares (within the limit): exactly the declared bytes are taken, never more,
+and it is not an error (net/http cuts the rest off). -/
+theorem lying_long_reads_declared (dflt limit : Int) (d a : Nat) (hd : 0 < d) (hda : d ≤ a)
+    (hl : (d : Int) ≤ normLimit dflt limit) :
+    fetch dflt limit ⟨d, a⟩ = .ok d := by
+  have h1 : ¬ normLimit dflt limit < 0 := by omega
+  have h2 : ¬ (d : Int) > normLimit dflt limit := by omega
+  have h3 : (d : Int) > 0 := by omega
+  have h4 : d ≠ 0 := by omega
+  simp [fetch, h1, h2, hda, h4]
+
+/-- A declared length over the limit is refused **without reading a single byte** whatever the body
+really contains — shown on the re-translated `FetchPayload`s themselves: no payload was installed
+(`Pay.unset`), i.e. neither `io.ReadFull` nor `io.ReadAll` ran. -/
+theorem declared_over_limit_refused_unread (dflt limit : Int) (d : Int) (a : Nat) (m : Option String)
+    (h0 : 0 ≤ normLimit dflt limit) (hd : d > normLimit dflt limit) (hm : (m == some "HEAD") = false) :
+    Gen.FactsC07IR.fetchReqIR dflt limit ⟨d, a⟩ = (.unset, .tooLarge) ∧
+    Gen.FactsC07IR.fetchRespIR dflt limit m ⟨d, a⟩ = (.unset, .tooLarge) := by
+  have hmerge : (if (limit == 0) = true then dflt else limit) = normLimit dflt limit := rfl
+  have h1 : ¬ normLimit dflt limit < 0 := by omega
+  have hm' : (m.isSome && (m.getD "" == "HEAD")) = false := by
+    cases m with
+    | none => rfl
+    | some x => simpa using hm
+  constructor
+  · simp only [Gen.FactsC07IR.fetchReqIR, hmerge]
+    simp [h1, hd]
+  · simp only [Gen.FactsC07IR.fetchRespIR, hmerge, hm']
+    simp [h1, hd]
+
+/-- A declared length *shorter* … and one *longer* than what arrives, both directions, in one table: short ⇒
+never handled / never delivered; long ⇒ exactly the declared bytes. -/
+theorem lying_content_length_table (dflt pathL serverL poolL proxyL : Int) (d a st : Nat) (hd : 0 < d)
+    (hq : (d : Int) ≤ Spec.limitInForce dflt pathL serverL) (hr : (d : Int) ≤ Spec.limitInForce dflt poolL proxyL) :
+    (a < d → (serve dflt pathL serverL ⟨d, a⟩).handled = false ∧ (serve dflt pathL serverL ⟨d, a⟩).status = 400) ∧
+    (a < d → (poolResp dflt poolL proxyL false st ⟨d, a⟩).delivered = false ∧
+             (poolResp dflt poolL proxyL false st ⟨d, a⟩).status = 500) ∧
+    (d ≤ a → serve dflt pathL serverL ⟨d, a⟩ = ⟨0, true, .ok d⟩) ∧
+    (d ≤ a → poolResp dflt poolL proxyL false st ⟨d, a⟩ = ⟨st, true, .ok d⟩) := by
+  have hq0 : 0 ≤ Spec.limitInForce dflt pathL serverL := by omega
+  have hr0 : 0 ≤ Spec.limitInForce dflt poolL proxyL := by omega
+  refine ⟨?_, ?_, ?_, ?_⟩
+  · intro ha
+    have hs : Spec.isShort ⟨(d : Int), a⟩ = true := by simp [Spec.isShort]; omega
+    obtain ⟨h1, _, h3⟩ := short_read_400 dflt pathL serverL ⟨d, a⟩ hq0 hs
+    exact ⟨h1, h3 hq⟩
+  · intro ha
+    have hs : Spec.isShort ⟨(d : Int), a⟩ = true := by simp [Spec.isShort]; omega
+    obtain ⟨h1, h2⟩ := resp_short_is_error dflt poolL proxyL st ⟨d, a⟩ hr0 hs
+    exact ⟨h2, h1⟩
+  · intro ha
+    have := lying_long_reads_declared dflt (effLimit pathL serverL) d a hd ha (by rw [effective_limit]; exact hq)
+    simp [serve, this]
+  · intro ha
+    have := lying_long_reads_declared dflt (effLimit poolL proxyL) d a hd ha (by rw [effective_limit]; exact hr)
+    have hn : ¬ normLimit dflt (effLimit poolL proxyL) < 0 := by rw [effective_limit]; omega
+    simp [poolResp, fetchResp, hn, this]
+
+/-! ### A body reader that fails instead of ending (short backend body behind the gzip compressor) -/
+
+/-- Behind the Proxy's `compression:` the declared length is hidden from `FetchPayload`; the short read must
+surface as the reader's error. Whatever the limit (≥ 0) and however many bytes came before the failure, the
+outcome is an error — never `ok`: the response is not delivered (⇒ 500, `poolResp`'s error mapping). -/
+theorem failing_reader_never_delivered (dflt limit : Int) (actual : Nat) (h : 0 ≤ normLimit dflt limit) :
+    fetchFailing dflt limit actual = .shortRead ∨ fetchFailing dflt limit actual = .tooLarge := by
+  unfold fetchFailing
+  have : ¬ normLimit dflt limit < 0 := by omega
+  simp only [this, if_false]
+  by_cases h2 : actual ≤ (normLimit dflt limit).toNat <;> simp [h2]
+
+example : fetchFailing 4194304 0 10 = .shortRead ∧ fetchFailing 4194304 5 10 = .tooLarge ∧
+    fetchFailing 4194304 (-1) 10 = .stream := by decide
+
+example : serve 4194304 (-1) 5 ⟨-1, 99⟩ = ⟨0, true, .stream⟩ ∧ serve 4194304 0 (-1) ⟨7, 7⟩ = ⟨0, true, .stream⟩ ∧
+    serve 4194304 3 (-1) ⟨-1, 4⟩ = ⟨413, false, .tooLarge⟩ ∧
+    Gen.FactsC07IR.fetchReqIR 4194304 3 ⟨9, 2⟩ = (.unset, .tooLarge) ∧ fetch 4194304 10 ⟨4, 9⟩ = .ok 4 := by decide
 
 /-! ### Non-vacuity -/
 
